@@ -24,6 +24,8 @@ func init() {
 		for _, l := range []string{"205", "150+100", "199+2+3"} {
 			us = append(us, Search{Sc: Lifecycle{Variant: "bulk:" + l}, Depth: 3})
 		}
+		// the phase machine also on cross-chain histories (timeouts, error acknowledgements, deletion, late relay)
+		us = append(us, Search{Sc: Stop{Variant: "base"}, Depth: depth + 1})
 		return CheckSpec{Level: "model_checking", Rule: searchRule, Assumptions: commonAssumptions, Budget: budget, Units: us,
 			MustSee: []string{"launch:success-expected", "launch:failure-expected", "more-than-200-due", "not-due",
 				"edge:CONSUMER_PHASE_REGISTERED->CONSUMER_PHASE_INITIALIZED", "edge:CONSUMER_PHASE_INITIALIZED->CONSUMER_PHASE_REGISTERED",
